@@ -285,3 +285,28 @@ package authboss
 //@   -- own; which client-state store is the session store and which the cookie store stays
 //@   -- what the integrator configured (modules are loaded through their own Init)
 //@   ensures[C11] stores_as_configured: each MemWrite(?p, _, _) => suffixof(".Hasher", p)
+//
+//@ -- The other constructors of the access middleware hand their arguments through unchanged.
+//@ func Middleware
+//@   property C08
+//@   ensures flags_map_to_bits: fname(result) == "MountedMiddleware2#MountedMiddleware2$1" &&
+//@       bound(result, "reqs") == ite(forceFullAuth, 1, 0) + ite(force2fa, 2, 0) &&
+//@       bound(result, "failResponse") == ite(redirectToLogin, RespondRedirect, RespondNotFound) &&
+//@       bound(result, "mountPathed") == false && bound(result, "ab") == ab
+//@
+//@ func Middleware2
+//@   property C08 C13
+//@   ensures passes_through: fname(result) == "MountedMiddleware2#MountedMiddleware2$1" &&
+//@       bound(result, "reqs") == requirements && bound(result, "failResponse") == failureResponse &&
+//@       bound(result, "mountPathed") == false && bound(result, "ab") == ab
+//@
+//@ func MountedMiddleware2
+//@   property C08 C13
+//@   ensures binds_arguments: fname(result) == "MountedMiddleware2#MountedMiddleware2$1" &&
+//@       bound(result, "reqs") == reqs && bound(result, "failResponse") == failResponse &&
+//@       bound(result, "mountPathed") == mountPathed && bound(result, "ab") == ab
+//
+//@ func MountedMiddleware2#1
+//@   property C08 C13
+//@   -- the handler that is returned guards exactly the handler that was passed in
+//@   ensures guards_given_handler: bound(result, "next") == next && bound(result, "reqs") == reqs && bound(result, "failResponse") == failResponse
